@@ -171,6 +171,46 @@ def twin(r, items):
     return r.choice(opts) if opts else None
 
 
+def twinned(r, x, p=60):
+    """Copy of a document in which scalars are replaced by equal-valued, differently-typed
+    twins (1 <-> True <-> 1.0, 0 <-> False <-> 0.0 ...): `==` to the original, not type-exact."""
+    if isinstance(x, dict):
+        return {k: twinned(r, v, p) for k, v in x.items()}
+    if isinstance(x, list):
+        return [twinned(r, v, p) for v in x]
+    if isinstance(x, (bool, int, float)) and x in TWINS and r.pct() < p:
+        opts = [t for t in TWINS[x] if type(t) is not type(x)]
+        if opts:
+            return r.choice(opts)
+    return x
+
+
+def twin_path(r, path):
+    """A path equal to `path` up to the type of one primitive part (1 <-> 1.0 <-> True, '1' <-> 1)."""
+    parts = list(path.parts)
+    idx = [i for i, p in enumerate(parts) if isinstance(p, Prim)]
+    if not idx:
+        return None
+    i = r.choice(idx)
+    v = parts[i].v
+    if isinstance(v, (bool, int, float)) and v in TWINS:
+        opts = [t for t in TWINS[v] if type(t) is not type(v)]
+        nv = r.choice(opts) if opts else None
+    elif isinstance(v, str):
+        try:
+            nv = int(v)
+        except ValueError:
+            nv = None
+    elif isinstance(v, int):
+        nv = float(v) if r.coin() else str(v)
+    else:
+        nv = None
+    if nv is None:
+        return None
+    parts[i] = Prim(nv)
+    return PathT(parts)
+
+
 def list_doc(r, depth=3, sc=scalar):
     out = [value(r, depth - 1, sc) for _ in range(r.between(1, 4))]
     if r.pct() < 15:
